@@ -701,7 +701,13 @@ for _n in ("sha256", "sha1", "sha512", "sha384", "sha224", "md5", "sha3_256", "s
 
 # always dispatched to the model (no symbolic argument needed to trigger)
 TRACK_CONCRETE_HASHES = True   # concrete digests computed on a path are registered with the UF of their algorithm
-ALWAYS = {io.BytesIO: _m_BytesIO, bytearray: _m_bytearray, secrets.randbelow: _m_randbelow, secrets.token_bytes: _m_token_bytes,
+def _m_memoryview(x):
+    if isinstance(x, SymBytes):
+        return x           # a view of the engine's byte sequence is the sequence itself (writes through the view reach the buffer)
+    return memoryview(x)
+
+
+ALWAYS = {io.BytesIO: _m_BytesIO, bytearray: _m_bytearray, memoryview: _m_memoryview, secrets.randbelow: _m_randbelow, secrets.token_bytes: _m_token_bytes,
           secrets.randbits: _m_randbits, os.urandom: _m_token_bytes}
 
 for _n in ("sha256", "sha1", "sha512"):
